@@ -688,6 +688,21 @@ impl LightClientProtocol {
                     continue;
                 }
                 if index > 0 {
+                    // The check points before the last finalized one are finalized too.
+                    let finalized = self.storage.get_check_points(*start_cpindex, index);
+                    if finalized
+                        .iter()
+                        .zip(check_points.iter())
+                        .any(|(finalized, check_point)| finalized != check_point)
+                    {
+                        info!(
+                            "peer {} will be banned \
+                            since its check points before {} are not the finalized ones",
+                            peer_index, last_cpindex
+                        );
+                        peers_should_be_skipped.push((*peer_index, true));
+                        continue;
+                    }
                     check_points.drain(..index);
                     *start_cpindex = last_cpindex;
                     peers.remove_first_n_check_points(*peer_index, index);
